@@ -3,8 +3,14 @@ use crate::engine::Ctx;
 pub mod c01;
 pub mod c02;
 pub mod c03;
+pub mod c04;
+#[cfg(not(pv_core))]
+pub mod c05;
+#[cfg(not(pv_core))]
+pub mod c07;
 pub mod c08;
 pub mod c16;
+pub mod c17;
 pub mod c18;
 pub mod common;
 #[cfg(not(pv_core))]
@@ -22,8 +28,14 @@ pub fn run(ctx: &mut Ctx) -> bool {
         "C01" => c01::run(ctx),
         "C02" => c02::run(ctx),
         "C03" => c03::run(ctx),
+        "C04" => c04::run(ctx),
+        #[cfg(not(pv_core))]
+        "C05" => c05::run(ctx),
+        #[cfg(not(pv_core))]
+        "C07" => c07::run(ctx),
         "C08" => c08::run(ctx),
         "C16" => c16::run(ctx),
+        "C17" => c17::run(ctx),
         "C18" => c18::run(ctx),
         #[cfg(not(pv_core))]
         "C12" => c12::run(ctx),
